@@ -9,14 +9,15 @@ Property theorems only (helper lemmas live in `Lemmas/DataReader.lean`, `Lemmas/
 * MODEL (`Model/Value.lean`): `Elem`/`PyVal` (the Python values of the property's domain; a dict
   inside a list is not representable, floats are given by their `repr`), `Expr` (what the
   constructed objects hold), `renderElem/renderExpr/renderBinding` (transliteration of
-  `coerce_expression`, `_float_literal`, `Primitive`, `FloatExpression`, `NixList`, `Binding`, `AttributeSet`), and the
-  container contexts `Ctx` with `renderCtx` (`Except`-valued: `ValueError` when the object holds an
-  int `coerce_expression` refuses — `exprRefused` —, else the text `renderCtxText`).
+  `coerce_expression`, `_float_literal`, `Primitive`, `FloatExpression`, `NixList`,
+  `_coerce_list_item`, `Parenthesis`, `Binding`, `AttributeSet`), and the container contexts `Ctx`
+  with `renderCtx` (`Except`-valued: `ValueError` when the object holds an int `coerce_expression`
+  refuses — `exprRefused` —, else the text `renderCtxText`).
 * SPEC (`Model/DataReader.lean`, `Model/ValueSpec.lean`): `readData`/`readBinding` — how Nix reads a
   text of the data fragment (lexer rules of Nix for INT/FLOAT/ID/strings; a unary minus is accepted
   where an operator expression may stand — binding value, top level, inside parentheses — never
-  bare as a list element; a float is the real number its literal denotes, `decValue`); `denote`/`expected` — the data a
-  Python value is; `ctxInDomain` — the property's domain; `ctxReadable` — the decidable side
+  bare as a list element; a float is the real number its literal denotes, `decValue`);
+  `denote`/`expected` — the data a Python value is; `ctxInDomain` — the property's domain; `ctxReadable` — the decidable side
   condition under which the code does keep the value (every value of the domain meets it);
   `dataOutOfRange` — the data the API must refuse.
 
@@ -249,8 +250,8 @@ theorem domain_not_refused (c : Ctx) (hd : ctxInDomain c = true) : dataOutOfRang
 
 /-! ## 4. Determinism -/
 
-/-- The outcome (text or refusal) is a function of the value and the context alone (the model has no other
-    input); that the implementation has no hidden state either is checked by the correspondence and
+/-- The outcome (text or refusal) is a function of the value and the context alone (the model has
+    no other input); that the implementation has no hidden state either is checked by the correspondence and
     by rendering twice. -/
 theorem render_deterministic (c₁ c₂ : Ctx) (h : c₁ = c₂) : renderCtx c₁ = renderCtx c₂ := by
   rw [h]
